@@ -91,14 +91,15 @@ type Options struct {
 }
 
 type world struct {
-	forced map[string]string // label -> forced visibility pattern / faulty strategy
-	victim int
-	opt    Options
-	t      *rapid.T
-	s      setup
-	net    *Net
-	blocks map[int64][]blockInfo // per height: blocks the adversary can refer to
-	stats  caseStats
+	forced  map[string]string // label -> forced visibility pattern / faulty strategy
+	victim  int
+	decider int
+	opt     Options
+	t       *rapid.T
+	s       setup
+	net     *Net
+	blocks  map[int64][]blockInfo // per height: blocks the adversary can refer to
+	stats   caseStats
 }
 
 type blockInfo struct {
@@ -464,7 +465,7 @@ func RunFree(t *rapid.T, opt Options) {
 		t.Fatalf("VERIF-INFRA: shadow: %v", err)
 	}
 	defer shadow.Close()
-	w := &world{victim: -1, opt: opt, t: t, s: s, net: net, blocks: map[int64][]blockInfo{}}
+	w := &world{victim: -1, decider: -1, opt: opt, t: t, s: s, net: net, blocks: map[int64][]blockInfo{}}
 	// adversarial intensity of this case
 	style := rapid.SampledFrom([]string{"calm", "mixed", "mixed", "hostile"}).Draw(t, "style")
 	var weights []string
@@ -615,7 +616,23 @@ func (w *world) drawPattern(label string, prevGroup map[int]bool) pattern {
 		// victim sees it" in consecutive phases are what leaves nodes locked on different values
 		w.victim = rapid.SampledFrom(w.net.Order).Draw(w.t, "victim")
 	}
+	if w.decider < 0 || w.decider == w.victim {
+		var others []int
+		for _, k := range w.net.Order {
+			if k != w.victim {
+				others = append(others, k)
+			}
+		}
+		w.decider = w.victim
+		if len(others) > 0 {
+			w.decider = rapid.SampledFrom(others).Draw(w.t, "decider")
+		}
+	}
 	switch kind {
+	case "victim+decider":
+		p.kind, p.group = "split", map[int]bool{w.victim: true, w.decider: true}
+	case "decider-only":
+		p.kind, p.group = "one", map[int]bool{w.decider: true}
 	case "victim-only":
 		p.kind, p.group = "one", map[int]bool{w.victim: true}
 	case "partial-all":
@@ -915,6 +932,14 @@ func (w *world) playHeight(shadow *Shadow, h int64, maxRounds int32) {
 		w.faultyVotes(h, r, tmproto.PrecommitType, pc, fmt.Sprintf("r%d.fpc", r))
 		w.deliverPhase(h, r, map[string]bool{"precommit": true}, pc)
 		prev = w.observe(prev)
+		if _, late := w.forced[fmt.Sprintf("r%d.stale-late", r)]; late {
+			// withheld votes of earlier rounds reach the victim while it still sits in this round
+			w.forced[fmt.Sprintf("r%d.stale", r)] = "victim"
+			w.staleFlush(h, r)
+			delete(w.forced, fmt.Sprintf("r%d.stale", r))
+			prev = w.observe(prev)
+			w.check(shadow, "late stale flush")
+		}
 		w.fireStep(h, cstypes.RoundStepPrecommitWait)
 		w.check(shadow, fmt.Sprintf("h%d r%d precommit", h, r))
 		if pc.group != nil {
@@ -1038,7 +1063,7 @@ func RunStructured(t *rapid.T, opt Options) {
 		t.Fatalf("VERIF-INFRA: shadow: %v", err)
 	}
 	defer shadow.Close()
-	w := &world{victim: -1, opt: opt, t: t, s: s, net: net, blocks: map[int64][]blockInfo{}}
+	w := &world{victim: -1, decider: -1, opt: opt, t: t, s: s, net: net, blocks: map[int64][]blockInfo{}}
 	heights := rapid.IntRange(1, 2).Draw(t, "heights")
 	gadget := rapid.IntRange(0, 7).Draw(t, "stalePolkaGadget") == 0 || os.Getenv("VERIF_GADGET") != ""
 	gadgetR0 := -1
@@ -1065,11 +1090,11 @@ func RunStructured(t *rapid.T, opt Options) {
 			f(r0+1, "fpc.strat", "nil-all")
 			f(r0+2, "prop", "all")
 			f(r0+2, "bprop", "reuse")
-			f(r0+2, "prevote", "all")
+			f(r0+2, "prevote", "victim+decider")
 			f(r0+2, "fpv.strat", "follow")
-			f(r0+2, "precommit", "one")
+			f(r0+2, "precommit", "decider-only")
 			f(r0+2, "fpc.strat", "two-faced")
-			f(r0+3, "stale", "victim")
+			f(r0+2, "stale-late", "victim")
 			f(r0+3, "prop", "all")
 			f(r0+3, "bprop", "new")
 			f(r0+3, "prevote", "all")
